@@ -719,6 +719,8 @@ mod fork;
 mod executor_helper;
 #[cfg(any(test, feature = "test-helper"))]
 pub mod test_helper;
+#[cfg(feature = "verif-hooks")]
+pub mod verif_hooks;
 
 #[cfg(test)]
 mod tests {
